@@ -532,7 +532,48 @@ func ExtraDocs() []string {
 	out = append(append(out, DimDocs()...), BBoxDocs()...)
 	out = append(out, TypeNameDocs()...)
 	out = append(out, CircleUnitDocs()...)
-	return append(out, BrokenMemberDocs()...)
+	out = append(out, BrokenMemberDocs()...)
+	out = append(out, NullArrayDocs()...)
+	return append(out, PowerDocs()...)
+}
+
+// NullArrayDocs: coordinate members whose elements at some level are all null
+// (two to four of them), for every type and level: a position, a line, a ring
+// is an array, never null.
+func NullArrayDocs() []string {
+	var out []string
+	nulls := func(n int) string { return strings.TrimSuffix(strings.Repeat("null,", n), ",") }
+	for n := 2; n <= 4; n++ {
+		ns := nulls(n)
+		for _, typ := range []string{"Point", "LineString", "Polygon", "MultiPoint", "MultiLineString", "MultiPolygon"} {
+			for _, c := range []string{"[" + ns + "]", "[[" + ns + "]]", "[[[" + ns + "]]]", "[[[[" + ns + "]]]]", "[[1,2],[" + ns + "]]", "[[" + ns + "],[1,2]]"} {
+				d := `{"type":"` + typ + `","coordinates":` + c + `}`
+				out = append(out, d, `{"type":"Feature","geometry":`+d+`,"properties":{}}`)
+			}
+		}
+		out = append(out, `{"type":"GeometryCollection","geometries":[`+ns+`]}`, `{"type":"FeatureCollection","features":[`+ns+`]}`)
+	}
+	return out
+}
+
+// PowerDocs: whole-number ordinates at the powers of two where integer types
+// end (2^31, 2^32, 2^53, 2^63, 2^64) and the floats next to them, both signs,
+// written in full and in exponent form, as x, y, z and radius.
+func PowerDocs() []string {
+	var out []string
+	for _, e := range []int{24, 31, 32, 52, 53, 62, 63, 64, 65, 127, 128} {
+		p := math.Ldexp(1, e)
+		for _, v := range []float64{p, math.Nextafter(p, 0), math.Nextafter(p, math.Inf(1)), -p, math.Nextafter(-p, 0), p - 1, p + 1} {
+			for _, txt := range []string{strconv.FormatFloat(v, 'f', -1, 64), strconv.FormatFloat(v, 'e', -1, 64)} {
+				out = append(out,
+					`{"type":"Point","coordinates":[`+txt+`,1]}`,
+					`{"type":"LineString","coordinates":[[0,`+txt+`,`+txt+`],[1,1,1]]}`,
+					`{"type":"Feature","geometry":{"type":"MultiPoint","coordinates":[[`+txt+`,`+txt+`]]},"properties":{}}`,
+					`{"type":"Feature","geometry":{"type":"Point","coordinates":[1,2]},"properties":{"type":"Circle","radius":`+txt+`,"radius_units":"m"}}`)
+			}
+		}
+	}
+	return out
 }
 
 // BrokenMemberDocs: collections of 255 .. 1000 members of which two, three or
